@@ -7,6 +7,7 @@ use selen::variables::VarId;
 type PostFn = fn(&str, &[&str], &[VarId], &mut Propagators) -> bool;
 const GROUPS: &[PostFn] = &[
     crate::plevel_global::post,
+    crate::plevel_logic::post,
     // group modules register here, e.g. crate::plevel_arith::post,
 ];
 
